@@ -54,6 +54,10 @@ func (s *sorts) of(t types.Type) string {
 			}
 			return "Int"
 		}
+		if _, ok := u.Underlying().(*types.Struct); ok && u.Obj().Pkg() != nil && !strings.HasPrefix(u.Obj().Pkg().Path(), modPath) {
+			// struct types of other modules / the standard library are opaque values
+			return s.opq(u.Obj().Pkg().Name() + "_" + u.Obj().Name())
+		}
 		if st, ok := u.Underlying().(*types.Struct); ok {
 			name := structSortName(u)
 			if !s.done[name] && !s.inprog[name] {
@@ -220,7 +224,11 @@ func (s *sorts) declStruct(name string, st *types.Struct) {
 		} else {
 			fsort = s.of(f.Type())
 		}
-		fs = append(fs, fieldInfo{f.Name(), fsort, f.Type(), cyc})
+		fname := f.Name()
+		if fname == "_" || fname == "" {
+			fname = fmt.Sprintf("blank%d", i)
+		}
+		fs = append(fs, fieldInfo{fname, fsort, f.Type(), cyc})
 	}
 	delete(s.inprog, name)
 	s.done[name] = true
